@@ -113,3 +113,11 @@ Fixpoint ceval (rho : env) (e : cexpr) : option (cty * Z) :=
       | None => None
       end
   end.
+
+(* (3) the outcome of using an identifier as an array length inside a type string given at run
+   time to ffi.typeof()/new()/cast()/sizeof() (parse_c_type.c, parse_sequel): a length, or one of
+   the three parse errors of that branch (all raised as ffi.error; they differ by message:
+   "integer constant too large", "disagreement about this constant's value", "expected a
+   positive integer constant") *)
+Inductive ps_err := PSTooLarge | PSDisagree | PSNotPositive.
+Inductive ps_len := PSLen (n : Z) | PSErr (e : ps_err).
